@@ -66,13 +66,13 @@ ALPH = list('#[]=()"\\ \t\n\rab1;$@<>_') + ["é", "#[[", "]]", "#]]", "#[[[", "@
 def corpus(tier):
     out = []
     try:
-        src = open("/repo/tests/unit_tests/test_lexer.py", encoding="utf-8").read()
+        src = open(vf.REPO + "/tests/unit_tests/test_lexer.py", encoding="utf-8").read()
         for n in ast.walk(ast.parse(src)):
             if isinstance(n, ast.Constant) and isinstance(n.value, str) and 0 < len(n.value) < 4000:
                 out.append(n.value)
     except OSError:
         pass
-    files = sorted(glob.glob("/repo/tests/**/*.cmake", recursive=True)) + sorted(glob.glob("/repo/cmake/*.cmake"))
+    files = sorted(glob.glob(vf.REPO + "/tests/**/*.cmake", recursive=True)) + sorted(glob.glob(vf.REPO + "/cmake/*.cmake"))
     if tier == "thorough":
         files += sorted(glob.glob("/usr/share/cmake*/Modules/*.cmake"))[:120]
     for f in files:
@@ -516,7 +516,8 @@ def ob_fault_witnesses(pid, D, label="C06.e"):
                 out = os.path.join(tmp, "o%d" % n)
                 open(src, "w", encoding="utf-8").write(w)
                 p = subprocess.run([vf.PY, "-W", "ignore", "-c", "import sys, cminx; cminx.main([sys.argv[1], '-o', sys.argv[2]])", src, out],
-                                   capture_output=True, text=True, timeout=120, env=dict(os.environ, XDG_CONFIG_HOME=os.path.join(work, "xdg")))
+                                   capture_output=True, text=True, timeout=120,
+                                   env=dict(os.environ, PYTHONPATH=os.path.join(vf.REPO, "src"), XDG_CONFIG_HOME=os.path.join(work, "xdg")))
                 wrote = os.path.isdir(out) and any(f.endswith(".rst") for f in os.listdir(out))
                 if p.returncode == 0 or wrote:
                     bad.append(("%s %s" % (fname, pname), w, True, "cminx exit status %d, page written: %s" % (p.returncode, wrote)))
